@@ -68,6 +68,14 @@ let () =
        | ["desext"; pw; salt; r] -> result (Some (x_desext (hexarg pw) (hexarg salt) (z_of_int (int_of_string r))))
        | ["argon2"; mode; ver; pw; salt; t; m; p; kl] ->
          result (Some (x_argon2 blake2b (zi mode) (zi ver) (hexarg pw) (hexarg salt) (zi t) (zi m) (zi p) (zi kl)))
+       | "kdf" :: tag :: nb :: rest ->
+         (* kdf <tag> <#byte args> <hex>... <#numbers> <dec>... : the concrete derivation on the scheme model's argument lists *)
+         let nb = int_of_string nb in
+         let rec take n l = if n = 0 then ([], l) else (match l with x :: r -> let (a, b) = take (n - 1) r in (x :: a, b) | [] -> ([], [])) in
+         let (bs, rest) = take nb rest in
+         let ns = (match rest with _ :: ns -> ns | [] -> []) in
+         result (x_kdf (prim "md5") (prim "sha256") (prim "sha512") (prim "md4") hmac bf_new bf_expand bf_encrypt blake2b
+                   (zi tag) (List.map hexarg bs) (List.map zi ns))
        | ["argon2block"; o; a; b; x] ->
          print_string ("RESULT " ^ hex_of_words (x_argon2_block (words_of_hex o) (words_of_hex a) (words_of_hex b) (x = "1")) ^ "\n")
        | ["argon2index"; rand; lanes; segs; thr; n; sl; lane; idx] ->
